@@ -2,8 +2,11 @@
 
 Every task of a small pool (succeeding / failing python and shell tasks, two-node workflows that
 succeed, fail in the second node, fail in the first node), with the audit flags PROV and ALL, under
-the debug and the cf worker, is submitted in a forked child with a `FileMessenger` writing to a
-scratch message directory.  The `.jsonld` files are parsed and the records classified BY THEIR KEYS:
+the debug and the cf worker, is submitted in a forked child with a `FileMessenger` that is either
+given a scratch message directory or left at its default location (`<cwd at send time>/messages`;
+the child's working directory is a scratch directory, every directory called `messages` below the
+case's scratch directory is then read).  The `.jsonld` files are parsed and the records classified
+BY THEIR KEYS:
 
   start record        "@type" == "job" and a "startedAtTime" key (lower-case s) and "@id"
   end record          "endedAtTime" and an "errored" key and "@id"
@@ -15,7 +18,7 @@ job whose body ran - counted from the body log and the result files, not from th
 start records are pairwise different; every start id has exactly one end record; no end record
 without a start record; the `errored` flags of the end records equal, job by job where the
 descriptive record names the job (`Label`) and as a multiset otherwise, the `errored` flag of the
-job's stored result.
+job's stored result; the start and the end record of one activity lie in the same message directory.
 """
 from __future__ import annotations
 
@@ -36,13 +39,19 @@ TECHNIQUE = "pool x flags x workers enumeration with generated inputs; invariant
 RULE = (
     "cases = (task kind from the pool {python, shell} x {succeeds, fails}, two-node workflow "
     "{succeeds, second node fails, first node fails}) x worker {debug, cf} x audit flag {PROV, ALL} x "
-    "generated integer input; each case is one real submission whose message directory is parsed. "
-    "Every case is non-trivial (at least one job executes with auditing on); distinct = (kind, flag, x)."
+    "message location {explicit message_dir, messenger default <cwd>/messages} x generated integer "
+    "input; each case is one real submission whose message directories are parsed. Every case is "
+    "non-trivial (at least one job executes with auditing on); distinct = (kind, flag, location, x)."
 )
 ASSUMPTIONS = [
     "records are identified by their keys as written by pydra/engine/audit.py on this tree",
     "the executed jobs are known independently: bodies append to a log, results are read from the cache",
     "only FileMessenger is exercised (PrintMessenger / RemoteRESTMessenger are not)",
+    "a message directory is the unit a consumer reads (collect_messages(dir)): 'one start and one "
+    "end record for the same activity' is demanded within one directory; WHERE the default location "
+    "puts the records of a job is not demanded",
+    "with the default location the submitting process and the pool workers start in a scratch "
+    "directory, so no messages/ directory can appear outside the scratch area",
 ]
 SHARDS = {"quick": 16, "thorough": 16}
 WALL = {"quick": 200, "thorough": 1200}
@@ -51,6 +60,7 @@ POOL = ["python", "python_fail", "shell", "shell_fail", "wf_debug", "wf_fail_deb
         "wf_fail1_debug", "python_cf", "python_fail_cf", "shell_cf", "shell_fail_cf", "wf_cf",
         "wf_fail_cf", "wf_fail1_cf"]
 FLAGS = ["PROV", "ALL"]
+MSGDIRS = ["explicit", "default"]
 RUN_TIMEOUT = 300.0
 LAST: dict = {}
 
@@ -76,6 +86,13 @@ def parse_messages(msgdir: Path):
         else:
             other.append(m)
     return starts, ends, descr, other, bad
+
+
+def message_dirs(cd: G.CaseDir, where):
+    """the directories the messenger may have written to"""
+    if where == "explicit":
+        return [cd.msgs]
+    return sorted(p for p in cd.dir.rglob("messages") if p.is_dir())
 
 
 def _child(spec, cd: G.CaseDir):
@@ -164,7 +181,8 @@ def shared_audit_model(kind, flag, starts, ends, res):
 def check_case(case):
     LAST.clear()
     kind, flag = case["kind"], case["flag"]
-    spec = {"kind": kind, "x": case["x"], "audit": flag}
+    where = case.get("msgdir", "explicit")
+    spec = {"kind": kind, "x": case["x"], "audit": flag, "msgdir": where}
     d = scratchdir.new("c36")
     try:
         cd = G.CaseDir(d)
@@ -176,7 +194,19 @@ def check_case(case):
             raise HarnessError(f"C36 child ended {r['status']}: {(d / 'run.log').read_text()[-1500:]}")
         res = r["result"]
         res["bodies_ran"] = bool(cd.body_counts())
-        starts, ends, descr, other, bad = parse_messages(cd.msgs)
+        starts, ends, descr, other, bad = [], [], [], [], []
+        dir_of_start, dir_of_end = {}, {}
+        mdirs = message_dirs(cd, where)
+        for md in mdirs:
+            parts = parse_messages(md)
+            rel = str(md.relative_to(cd.dir))
+            for m in parts[0]:
+                dir_of_start.setdefault(m["@id"], rel)
+            for m in parts[1]:
+                dir_of_end.setdefault(m["@id"], rel)
+            for acc, part in zip((starts, ends, descr, other, bad), parts):
+                acc += part
+        LAST["n_message_dirs"] = len(mdirs)
         exp = expected_jobs(kind)
         bodies = cd.body_counts()
         LAST.update(outcome="ran", n_start=len(starts), n_end=len(ends), n_descr=len(descr),
@@ -237,6 +267,12 @@ def check_case(case):
             if n > 1:
                 rec("more-than-one-end-record", {i: n}, "exactly one")
                 break
+        for i in sids:
+            if i in dir_of_end and dir_of_end[i] != dir_of_start[i]:
+                rec("start-and-end-record-in-different-message-directories",
+                    dict(start=dir_of_start[i], end=dir_of_end[i]),
+                    "both records of an activity in one message directory")
+                break
         # errored flags
         stored = {n: executed.get(n) for n in exp}
         label_of = {m.get("@id"): m.get("Label") for m in descr}
@@ -255,26 +291,31 @@ def check_case(case):
 
 
 def run(sh):
-    combos = [(k, f) for k in POOL for f in FLAGS]
+    combos = [(k, f, w) for w in MSGDIRS for k in POOL for f in FLAGS]
     # enumerated part: every combination once with the default input
-    for i, (k, f) in enumerate(combos):
+    for i, (k, f, w) in enumerate(combos):
         if i % sh.n != sh.index:
             continue
         if sh.out_of_time():
             return
-        case = dict(kind=k, flag=f, x=3)
-        sh.run_case(case, nontrivial=True, labels=[f"kind:{k}", f"flag:{f}", "enumerated"])
+        case = dict(kind=k, flag=f, x=3, msgdir=w)
+        sh.run_case(case, nontrivial=True,
+                    labels=[f"kind:{k}", f"flag:{f}", f"msgdir:{w}", "enumerated"])
         sh.count(f"outcome:{LAST.get('outcome')}")
+        if w == "default":
+            sh.count(f"message_dirs_found:{min(LAST.get('n_message_dirs', 0), 4)}")
     sh.count("exhaustive_subspaces_completed")
 
     # generated part: random (combination, input)
     strat = st.tuples(st.sampled_from(combos), st.integers(min_value=-50, max_value=1000))
 
     def body(t):
-        (k, f), x = t
-        case = dict(kind=k, flag=f, x=x)
-        sh.run_case(case, nontrivial=True, labels=[f"kind:{k}", f"flag:{f}"],
+        (k, f, w), x = t
+        case = dict(kind=k, flag=f, x=x, msgdir=w)
+        sh.run_case(case, nontrivial=True, labels=[f"kind:{k}", f"flag:{f}", f"msgdir:{w}"],
                     raise_unattributed=True)
         sh.count(f"outcome:{LAST.get('outcome')}")
+        if w == "default":
+            sh.count(f"message_dirs_found:{min(LAST.get('n_message_dirs', 0), 4)}")
 
-    sh.given(strat, body, sh.budget(128, 1600), tag="gen")
+    sh.given(strat, body, sh.budget(100, 1600), tag="gen")
